@@ -213,7 +213,11 @@ def run(chk):
                 chk.obligation(False)
                 ob = f.bodies[origin]
                 via = "" if origin == bid else " (value supplied by %s)" % b.short()
-                chk.finding("%s|MAG|%s|from %s" % (ob.short(), o.desc, b.short()), rule="R-MAG", where="%s:%s" % (o.file, o.line), fn=ob.short(),
+                skind = "loop" if ("into_iter(" in o.desc or "for_each(" in o.desc or "fold(" in o.desc or o.desc.startswith("loop(")) else "dimension" if "#arg" in o.desc else "allocation"
+                # the key names the function, the kind of sink and where the number comes from - not the expression (a renamed local or
+                # an extracted helper does not make a known unbounded loop a new one); the sinks of one kind are counted
+                chk.finding("%s|MAG|%s|from %s" % (ob.short(), skind, b.short()), detail="%s|MAG|%s|from %s" % (ob.short(), o.desc, b.short()),
+                            rule="R-MAG", where="%s:%s" % (o.file, o.line), fn=ob.short(),
                             what=o.what + via + ": it derives from a number decoded from the input")
             else:
                 undecided += 1
